@@ -395,6 +395,22 @@ func c08Run(c *Ctx) {
 		}
 	}
 
+	// (b3) an illegal character, bare and inside braces, dropped at every segment boundary of every corpus entry
+	// (behind a slot's @end, between the slots of a component, in front of an @else ...): still total
+	for _, segs := range c08Corpus() {
+		if !c.Mine() {
+			continue
+		}
+		for i := 0; i <= len(segs); i++ {
+			for _, junk := range []string{"{{ ^ }}", "^", "{{ # }}", "@if(^)x@end", "{{--"} {
+				src := c08Join(segs[:i]) + junk + c08Join(segs[i:])
+				for _, seam := range []string{"parse", "eval", "page", "component"} {
+					c08Do(c, c08Case{Mode: "illegal-at-boundary", Seam: seam, Src: src}, int64(3000+len(src)))
+				}
+			}
+		}
+	}
+
 	// (d) files that refer to each other in a cycle: loading and rendering must still terminate
 	if c.Mine() {
 		refs := []func(string) string{
